@@ -38,7 +38,7 @@ from ..core import MachineryError
 from ..tlaval import to_py
 
 POOL = [[["b", 1]], [["b", 1], ["b", 2]], [["t", 1], ["b", 3]], [["t", 1], ["b", 2]], [["t", 3], ["b", 1]]]
-POOL_LINK = [False, False, False, True, False]
+POOL_LINK = [0, 0, 0, -1, 0]      # t4 carries a gitlink; -1: to a foreign commit, k > 0: to commit k of the universe
 ALL_MODES = '{"single", "multi", "detailed"}'
 INVARIANTS = ["TypeOK", "Antecedent", "ReceiverComplete", "NoLoss", "SenderSound", "WantValidation",
               "ThinResolvable", "Confluent", "HavesSound"]
@@ -185,6 +185,8 @@ def case_key(c):
     s += " tr=" + ",".join(map(str, u["tr"]))
     if len(u["ent"]) != len(POOL) or u["ent"] != POOL:
         s += " ent=" + "/".join(",".join(f"{o[0]}{o[1]}" for o in e) or "-" for e in u["ent"])
+    if any(x > 0 for x in u["lnk"]):
+        s += " gitlink=" + ",".join(f"t{j}->c{x}" for j, x in enumerate(u["lnk"], 1) if x > 0)
     s += " tg=" + (",".join(f"{o[0]}{o[1]}" for o in u["tg"]) or "-")
     s += " sh=" + ",".join(map(str, c["sh"])) + (" full" if c.get("full") else "")
     s += " rh=" + (",".join(map(str, c["rh"])) or "-") + " rt=" + (",".join(map(str, c["rt"])) or "-")
@@ -212,10 +214,51 @@ def caps_key(j):
     return "+".join(bits)
 
 
+def gitlink_targets(U, j):
+    """commits of the universe that tree j can name in a gitlink without the object ids becoming
+    circular: no ancestor-or-self of the commit may have tree j below its root tree"""
+    ent = U["ent"]
+
+    def below(t, seen):
+        if t in seen:
+            return seen
+        seen.add(t)
+        for o in ent[t - 1]:
+            if o[0] == "t":
+                below(o[1], seen)
+        return seen
+    holds = [j in below(t, set()) for t in U["tr"]]          # per commit: its tree contains tree j
+    dirty = list(holds)
+    for i, ps in enumerate(U["par"]):                        # parents have smaller numbers
+        dirty[i] = dirty[i] or any(dirty[p - 1] for p in ps)
+    return [i + 1 for i in range(len(U["par"])) if not dirty[i]]
+
+
+def vary_gitlinks(U, h):
+    """the model does not care what a gitlink names; the replay lets it name a commit of the same
+    universe in two cases out of three"""
+    lnk = list(U["lnk"])
+    used = set()
+    todo = list(U["tr"])
+    while todo:
+        t = todo.pop()
+        if t not in used:
+            used.add(t)
+            todo.extend(o[1] for o in U["ent"][t - 1] if o[0] == "t")
+    for j, x in enumerate(lnk, 1):
+        if x and j in used and h % 3:
+            cand = gitlink_targets(U, j)
+            if cand:
+                lnk[j - 1] = cand[(h >> 2) % len(cand)]
+        h >>= 3
+    return dict(U, lnk=lnk)
+
+
 def jobs_for_case(ctx, c, space, k, gitfrac, tid0):
     """the executions of one enumerated case; k = running number (rotates the capability sets)"""
     out = []
     h = h32(ctx.seed, space, k)
+    c = dict(c, U=vary_gitlinks(c["U"], h >> 4))
 
     def job(op, transport, caps=None, **kw):
         j = {key: c[key] for key in ("U", "sh", "full", "rh", "rt", "wants", "forged")}
@@ -226,7 +269,9 @@ def jobs_for_case(ctx, c, space, k, gitfrac, tid0):
     layout = ["loose", "loose", "gitpack", "loose", "bitmap", "loose", "loose", "loose"][(h >> 5) % 8]
     rlayout = ["loose", "loose", "loose", "gitpack", "loose", "loose", "loose", "loose"][(h >> 9) % 8]
     if c["forged"]:
+        # a request for an object that is not an advertised value, to every dulwich server
         job("fetch", "tcp", caps={"mode": c["mode"]}, slayout=layout)
+        job("fetch", "http", caps={"mode": c["mode"]}, slayout=layout)
         return out
     if k % 2 == 0:
         job("fetch", "local", slayout=layout, rlayout=rlayout)
@@ -294,7 +339,7 @@ def random_case(rng, n_lo=4, n_hi=8):
             for s in rng.sample(range(1, t), rng.randint(0, min(2, t - 1))):
                 kids.append(["t", s])
         ent.append(sorted(kids))
-        lnk.append(rng.random() < 0.15)
+        lnk.append(-1 if rng.random() < 0.25 else 0)
     par = []
     shape = rng.choice(["any", "any", "linear", "crisscross", "roots"])
     for i in range(1, n + 1):
@@ -310,6 +355,15 @@ def random_case(rng, n_lo=4, n_hi=8):
             p = sorted(rng.sample(range(1, i), min(i - 1, rng.choice([0, 1, 1, 1, 2, 2, 3]))))
         par.append(p)
     tr = [rng.randint(1, nt) for _ in range(n)]
+    for j in range(1, nt + 1):          # half of the gitlinks name a commit of this very history
+        if lnk[j - 1] and rng.random() < 0.5:
+            cand = gitlink_targets({"par": par, "tr": tr, "ent": ent}, j)
+            if cand:
+                lnk[j - 1] = rng.choice(cand)
+                try:                    # two gitlinks can close a cycle through each other's commits
+                    X.L.Universe(par, tr, ent, lnk, [])
+                except ValueError:
+                    lnk[j - 1] = -1
     tg = []
     for m in range(1, rng.randint(0, 3) + 1):
         kind = rng.choice("ccctbg" if m > 1 else "ccctb")
@@ -409,6 +463,59 @@ def extra_jobs(ctx):
         j.update(op="fetch", transport="gitserver", caps={"mode": "detailed", "v2": True}, space="shallow", gitcheck=1, depth=depth,
                  rh=[], steps=[{"wants": [["c", 2]], "depth": depth}, {"wants": [["c", 3]], "depth": 0}])
         out.append(j)
+    # ---- a gitlink that names a commit of the same repository (a branch embedded as a submodule):
+    # the embedding commit is common, the embedded commit is wanted
+    link = lambda k: [0, 0, 0, k, 0]
+    shapes = [
+        # c2 (tree t4 -> c1) is what the receiver has, c3 its child; c1 and c3 are wanted
+        dict(par=[[], [], [2]], tr=[1, 4, 2], lnk=link(1), tg=[], sh=[1, 3], rh=[2], rt=[], wants=[["c", 1], ["c", 3]]),
+        # the receiver's own tip c2 is asked for again together with the commit its gitlink names
+        dict(par=[[], []], tr=[1, 4], lnk=link(1), tg=[], sh=[1, 2], rh=[2], rt=[], wants=[["c", 1], ["c", 2]]),
+        # the embedded commit is wanted through a tag; it has history of its own
+        dict(par=[[], [1], [], [3]], tr=[2, 3, 4, 5], lnk=link(2), tg=[["c", 2]], sh=[4], rh=[3], rt=[], wants=[["g", 1], ["c", 4]]),
+        # the gitlink sits in a subtree of the common commit (t6 = {t4, b3})
+        dict(par=[[], [], [2]], tr=[1, 6, 3], lnk=link(1) + [0], ent=POOL + [[["t", 4], ["b", 3]]], tg=[], sh=[1, 3], rh=[2], rt=[],
+             wants=[["c", 1], ["c", 3]]),
+    ]
+    trs = [("fetch", "local"), ("fetch", "tcp"), ("fetch", "http"), ("push", "tcp"), ("fetch", "localpack"), ("fetch", "mofapi"),
+           ("fetch", "gitclient"), ("fetch", "githttp"), ("push", "local"), ("push", "http"), ("push", "porcelain"),
+           ("fetch", "porcelain"), ("push", "gitserver")]
+    for si, sh in enumerate(shapes[:ctx.pick(2, 4)]):
+        for op, tr in trs[:ctx.pick(4, len(trs))]:
+            j = {"U": {"par": sh["par"], "tr": sh["tr"], "ent": sh.get("ent", POOL), "lnk": sh["lnk"], "tg": sh["tg"]},
+                 "sh": sh["sh"], "full": 0, "rh": sh["rh"], "rt": sh["rt"], "wants": sh["wants"], "forged": 0}
+            j.update(op=op, transport=tr, caps={"mode": "detailed"} if tr in ("tcp", "http") else {}, space="gitlink", gitcheck=1,
+                     slayout=["loose", "gitpack"][si % 2])
+            if tr == "porcelain":
+                j["via"] = ["tcp", "http", "path"][si % 3]
+            out.append(j)
+    # ---- a shallow clone fetches again with a depth: its old boundary stays out of reach of the new
+    # depth while a merge brings in a side branch that joins the main line below that boundary
+    #   c1 - c2(old tip, old boundary) - c3 .. c(2+m) - T      T = merge(c(2+m), B),  B = child of c1 (or of a root c0 chain)
+    def refetch(m, depth, deep_side):
+        par = [[], [1]] + [[i] for i in range(2, 2 + m)]            # c1, c2, main line up to c(2+m)
+        top = 2 + m
+        if deep_side:                                                 # the side branch has two commits
+            par += [[1], [top + 1], [top, top + 2]]
+        else:
+            par += [[1], [top, top + 1]]
+        n = len(par)
+        return {"U": {"par": par, "tr": [1 + (i % 3) for i in range(n)], "ent": POOL, "lnk": POOL_LINK, "tg": []},
+                "sh": [2, n], "full": 0, "rh": [], "rt": [], "wants": [["c", 2]], "forged": 0,
+                "steps": [{"wants": [["c", 2]], "depth": 1}, {"wants": [["c", n]], "depth": depth}], "depth": 1}
+    variants = ctx.pick([(2, 3, False), (1, 2, False)],
+                        [(2, 3, False), (1, 2, False), (3, 3, False), (2, 4, True), (3, 4, True), (1, 3, True), (2, 2, False)])
+    rtrs = ctx.pick(["tcp", "http", "local", "gitclient"],
+                    ["tcp", "http", "local", "localpack", "gitclient", "githttp", "gitserver", "porcelain"])
+    for (m, depth, deep) in variants:
+        for tr in rtrs:
+            for mode in (("detailed",) if ctx.quick or tr not in ("tcp", "http") else ("detailed", "multi", "single")):
+                j = refetch(m, depth, deep)
+                j.update(op="fetch", transport=tr, caps={"mode": mode} if tr in ("tcp", "http", "gitserver") else {},
+                         space="refetch", gitcheck=1)
+                if tr == "porcelain":
+                    j["via"] = "tcp"
+                out.append(j)
     for (npriv, ncom, both) in ctx.pick([(270, 3, True), (40, 2, False)], [(270, 3, True), (300, 2, False), (600, 4, True), (40, 2, False)]):
         c = long_case(npriv, ncom, both)
         for tr in ("tcp", "local", "gitserver", "githttp", "http", "gitclient"):
